@@ -35,7 +35,7 @@ MANIFEST = {
                 "Unicode::append / toString / length / fromString / isValid (pointer and String forms, array forms), String::fromHex, String::fromBase64 "
                 "(every if / switch with fall-through / loop / pointer step / checked read and store / uint32 and usize wrap-around) are the model functions for all byte "
                 "lists, all lengths < 2^64 and every fuel above the length (body_append ... body_fromBase64); the ten parsers and five formatters call the libc "
-                "function with the arguments and result conversion the model says (body_toInt ... body_fromDouble); numeric_boundary_table: 27 closed rows "
+                "function with the arguments and result conversion the model says (body_toInt ... body_fromDouble), the eight <cctype> wrappers the libc predicate the cls lines print (body_ctype_wrappers); numeric_boundary_table: 27 closed rows "
                 "(\"-1\" through the unsigned parsers, +-2^64, +-2^63, 2^32, 2^31) that also run on the real code and libc from the corpus.  "
                 "Tie to the current sources on every run: the translated bodies above, generated tables / guard / "
                 "switch expressions / masks / range tests (the theorems are stated over them), identical op lines through the real "
@@ -47,7 +47,8 @@ MANIFEST = {
                 "and is refused where sign extension would matter; pointer parameters as offsets into a block with a readable range; (const char*)s = s ++ [0] readable below "
                 "length(); String r / r.append / r.resize / r.reserve + raw stores + resize(j) under the buffer protocol below; loops as recursive functions on fuel, the theorems "
                 "hold for every fuel above the length; switch = selector once, cases in source order, fall-through unrolled; anything outside the subset is refused = broken tie); "
-                "hand-translated and only tied by the correspondence run: String::printf / fromPrintf (two attempts over vsnprintf), cstr (String -> const char*), the <cctype> wrappers; "
+                "hand-translated and only tied by the correspondence run: String::printf / fromPrintf (two attempts over vsnprintf), cstr (String -> const char*); "
+                "which libc function each numeric / <cctype> wrapper calls is translated at regex level (Generated/CodecNum.lean, any other shape refused); "
                 "the UTF-16 branch of Unicode::append is translated and proved but never executed (not compiled on this platform); "
                 "the table/expression translator of tools/gen_codec.py (Unicode::length, String::isSpace, toLowerCase/toUpperCase(char) as tables by executing harness/codec_probe.cpp built from the current "
                 "sources; otherwise regexes + a small C expression/statement translator that interprets the per-byte tests of fromBase64 in "
